@@ -100,10 +100,37 @@ class BodyGen:
             base += "\t"
         return "%s_%s_%d" % (base, rev, self.counter)
 
-    def gen_col(self, rev, nullable_only=False):
+    def gen_default(self, typ, constant_only=False):
+        """a server default for the column type (None: the type gets none here)"""
+        rng = self.rng
+        base = typ.split("(")[0]
+        if base in ("Text", "String"):
+            opts = [{"kind": "str", "v": rng.choice(["dflt", "it's", "a;b", "--x", "", "ü", "NULL", "0"])}]
+            if not constant_only:
+                opts.append({"kind": "text", "v": rng.choice(["('x' || 'y')", "(lower('ABC'))"])})
+        elif base == "Integer":
+            opts = [{"kind": "text", "v": rng.choice(["7", "0", "-3"])}, {"kind": "str", "v": "42"}]
+            if not constant_only:
+                opts.append({"kind": "text", "v": "(40 + 2)"})
+        elif base == "Float":
+            opts = [{"kind": "text", "v": rng.choice(["1.5", "0.25"])}]
+        elif base == "Boolean":
+            opts = [{"kind": "text", "v": rng.choice(["1", "0"])}]
+        else:
+            return None
+        return rng.choice(opts)
+
+    def gen_col(self, rev, nullable_only=False, add_column=False):
         typ = self.rng.choice(TYPES_LANG if self.lang_only else TYPES_ALL)
-        return {"name": self.uniq(rev, self.rng.choice(self.names + ["c", "val", "name"])), "type": typ,
-                "nullable": True if nullable_only else self.rng.random() < 0.75}
+        c = {"name": self.uniq(rev, self.rng.choice(self.names + ["c", "val", "name"])), "type": typ,
+             "nullable": True if nullable_only else self.rng.random() < 0.75}
+        if not self.lang_only and self.rng.random() < (0.5 if add_column else 0.3):
+            d = self.gen_default(typ, constant_only=add_column)
+            if d is not None:
+                c["default"] = d
+                if add_column:  # SQLite accepts ADD COLUMN ... NOT NULL when there is a non-NULL constant default
+                    c["nullable"] = self.rng.random() < 0.6
+        return c
 
     def gen_table(self, rev):
         cols = [{"name": "id", "type": "Integer", "nullable": False}]
@@ -128,15 +155,19 @@ class BodyGen:
         """rows of one bulk_insert: the same key set in every row (nullable columns may be omitted
         from all of them) unless `hetero` (rows with different key sets: see finding C12-HETERO)"""
         rows = []
-        omitted = {c["name"] for c in cols if c["nullable"] and c["name"] != "id" and self.rng.random() < 0.2}
+        # a key may be left out when the column is nullable or has a server default (the default applies)
+        omitted = {c["name"] for c in cols if (c["nullable"] or c.get("default")) and c["name"] != "id"
+                   and self.rng.random() < (0.3 if c.get("default") else 0.2)}
         for _ in range(self.rng.choice([0, 1, 1, 2, 3, 6])):
             row = {}
             for c in cols:
                 if c["name"] == "id":
                     row["id"] = {"k": "int", "v": self.nextid}
                     self.nextid += 1
-                elif c["name"] in omitted or (hetero and c["nullable"] and self.rng.random() < 0.3):
+                elif c["name"] in omitted or (hetero and (c["nullable"] or c.get("default")) and self.rng.random() < 0.3):
                     continue  # omitted column
+                elif c.get("default") and c["nullable"] and self.rng.random() < 0.35:
+                    row[c["name"]] = {"k": "null"}  # explicit None although the column has a default: NULL must be stored
                 else:
                     row[c["name"]] = gen_value(self.rng, c["type"], c["nullable"], self.tabs, for_text)
             rows.append(row)
@@ -156,7 +187,7 @@ class BodyGen:
         else:
             use = [c for c in cols if c["name"] == "id" or not c["nullable"] or (c in tcols and rng.random() < 0.6)]
             use = [c for c in use if c["name"] == "id" or c in tcols]
-            if any((not c["nullable"]) and c not in use for c in cols):
+            if any((not c["nullable"]) and not c.get("default") and c not in use for c in cols):
                 txt = "DELETE FROM %s WHERE id = -1" % tn
             else:
                 vals = []
@@ -217,10 +248,12 @@ class BodyGen:
             t = rng.choice(av)
             cols = self.cols_of(t, anc, added_here)
             if kind == "add_column":
-                c = self.gen_col(rev, nullable_only=True)
+                c = self.gen_col(rev, nullable_only=True, add_column=True)
                 added_here.append((t["name"], c))
                 up.append({"op": "add_column", "table": t["name"], "col": c})
                 undo.append({"op": "drop_column", "table": t["name"], "col": c["name"]})
+                if c.get("default") and rng.random() < 0.7:  # rows that use / override / null the new default
+                    up.append(self.bulk(t, self.cols_of(t, anc, added_here)))
             elif kind == "index":
                 base = t["cols"]
                 k = rng.randint(1, min(2, len(base)))
@@ -328,10 +361,10 @@ def in_language(ops):
     for o in ops:
         k = o["op"]
         if k == "create_table":
-            if any(c.get("pk") or c["type"] not in TYPES_LANG for c in o["cols"]):
+            if any(c.get("pk") or c.get("default") or c["type"] not in TYPES_LANG for c in o["cols"]):
                 return False
         elif k == "add_column":
-            if o["col"].get("pk") or o["col"]["type"] not in TYPES_LANG:
+            if o["col"].get("pk") or o["col"].get("default") or o["col"]["type"] not in TYPES_LANG:
                 return False
         elif k == "create_index":
             if o.get("unique"):
